@@ -160,6 +160,10 @@ def wrap(f, c):
 
 
 def attach(owner, attr, c, kind="function"):
+    if attr.startswith("_") and not attr.startswith("__") and not hasattr(owner, attr):
+        # a private helper that no longer exists under this name: its contract does not bind (stale), nothing is broken
+        MON.calls["stale:" + c.qualname] += 1
+        return
     raw = owner.__dict__[attr] if hasattr(owner, "__dict__") and attr in owner.__dict__ else getattr(owner, attr)
     if isinstance(raw, classmethod):
         setattr(owner, attr, classmethod(wrap(raw.__func__, c)))
